@@ -236,6 +236,9 @@ LATER_BASES = [
 LATER_CONSUMERS = [
     ("terminal:default-seed", None),   # b.backward() itself: the seed is made by backward(), not by an operation
     ("terminal:scalar-seed", 2.0),
+    ("terminal:C-array-seed", "C"),   # a caller's array of the terminal's shape, C-ordered whatever the terminal's layout
+    ("terminal:F-array-seed", "F"),
+    ("terminal:row-seed", "row"),     # a caller's array that broadcasts against the terminal
     ("square", lambda b: (b * b).sum()),
     ("scaled", lambda b: (b * 2.0).sum()),
     ("through-view", lambda b: (b[0] * 3.0).sum() + (b * b).sum()),
@@ -261,13 +264,15 @@ def later_view_case(args):
     b = mkb()
     keep.append(b.base)
     pre = chain(b) if (bi + ci + vi) % 2 else None   # every other case: the same chain also exists before backward()
-    if cons is None or isinstance(cons, float):
-        if b.creator is None and b.base is not None:
-            b = +b if False else b  # (a former view is used as it is: backward() on it seeds its own gradient)
+    if cons is None or isinstance(cons, (float, str)):
         if cons is None:
             b.backward()
-        else:
+        elif isinstance(cons, float):
             b.backward(cons)
+        else:
+            g = (np.arange(float(b.size)).reshape(b.shape) + 1) if cons != "row" else np.arange(float(b.shape[-1])) + 1
+            g = np.asfortranarray(g) if cons == "F" else np.ascontiguousarray(g)
+            b.backward(g.astype(b.dtype))
     else:
         L = cons(b)
         L.backward()
@@ -484,4 +489,4 @@ MANIFEST = {
             "the implementation in every case (it is what the first-contribution copy must guarantee).",
 }
 
-MANIFEST_ADDENDUM = 'Oracle additions: 210 histories in which the view chain is taken after backward() (or both before and after) from a C-/Fortran-ordered owner or a former view, with op-made, default and scalar seeds, followed by `.shape =` inside no_autodiff; view elements are identified by memory address (any layout of base and view).'
+MANIFEST_ADDENDUM = 'Oracle additions: 441 histories in which the view chain is taken after backward() (or both before and after) from a C-/Fortran-ordered owner or a former view, with op-made, default, scalar and caller-supplied (C-ordered, Fortran-ordered, broadcast) array seeds, followed by `.shape =` inside no_autodiff; view elements are identified by memory address (any layout of base and view).'
